@@ -244,27 +244,31 @@ Section Output.
   (* what the non-Literal branch calls: outc c escaping nextc *)
   Variable outc_f : byte -> esc -> option byte -> st -> st.
 
-  (* one iteration of `while i < buf.len()` for buf[i] = c, rest = buf[i+1..] *)
-  Definition out_step (wrap : bool) (e : esc) (c : byte) (rest : bytes) (s : st) : st * bool :=
-    let s := if begin_line s then set_column (plen s) (extend_prefix s) else s in
-    let s := if custom_escape s && table_escape (cur s) c then push x5c s else s in
+  (* one iteration of `while i < buf.len()` for buf[i] = c, rest = buf[i+1..], in three stages *)
+  Definition step_prefix (s : st) : st :=
+    if begin_line s then set_column (plen s) (extend_prefix s) else s.
+  Definition step_custom (c : byte) (s : st) : st :=
+    if custom_escape s && table_escape (cur s) c then push x5c s else s.
+  Definition step_main (wrap : bool) (e : esc) (c : byte) (rest : bytes) (s : st) : st * bool :=
     let nextc := match rest with n :: _ => Some n | [] => None end in
-    let '(s, skipping) :=
-      if beqb c x20 && wrap then
-        if negb (begin_line s) then
-          let last_nonspace := vlen s in
-          let s := set_begin_content false (set_begin_line false (set_column (column s + 1) (push x20 s))) in
-          let s := if negb (head_is_digit (drop_spaces rest)) then set_last_breakable last_nonspace s else s in
-          (s, true)
-        else (s, false)
-      else if esc_eqb e Literal then
-        if beqb c x0a then
-          (set_last_breakable 0 (set_begin_content true (set_begin_line true (set_column 0 (push x0a s)))), false)
-        else
-          (set_begin_content (begin_content s && isdigit c) (set_begin_line false (set_column (column s + 1) (push c s))), false)
+    if beqb c x20 && wrap then
+      if negb (begin_line s) then
+        let last_nonspace := vlen s in
+        let s := set_begin_content false (set_begin_line false (set_column (column s + 1) (push x20 s))) in
+        let s := if negb (head_is_digit (drop_spaces rest)) then set_last_breakable last_nonspace s else s in
+        (s, true)
+      else (s, false)
+    else if esc_eqb e Literal then
+      if beqb c x0a then
+        (set_last_breakable 0 (set_begin_content true (set_begin_line true (set_column 0 (push x0a s)))), false)
       else
-        let s := outc_f c e nextc s in
-        (set_begin_content (begin_content s && isdigit c) (set_begin_line false s), false) in
+        (set_begin_content (begin_content s && isdigit c) (set_begin_line false (set_column (column s + 1) (push c s))), false)
+    else
+      let s := outc_f c e nextc s in
+      (set_begin_content (begin_content s && isdigit c) (set_begin_line false s), false).
+
+  Definition out_step (wrap : bool) (e : esc) (c : byte) (rest : bytes) (s : st) : st * bool :=
+    let '(s, skipping) := step_main wrap e c rest (step_custom c (step_prefix s)) in
     (wrap_check width s, skipping).
 
   (* `skipping`: the inner `while buf.get(i + 1) == Some(' ') { i += 1 }` consumed this byte *)
